@@ -39,13 +39,14 @@ def rows_extend(rh, nx, ny):
 
 
 @job("c04.aero", ("C04",), cfgs=[dict(nx=2, ny=2, viscous=False, wave=False), dict(nx=2, ny=3, viscous=False, wave=False),
+                                  dict(nx=2, ny=2, viscous=False, wave=False, compressible=True),
                                   dict(nx=3, ny=3, viscous=False, wave=False, _tier=T)],
      ranges=RG + [(r"Mach", 0.78, 0.9)], cost=30)
-def aero(env, nx, ny, viscous, wave):
+def aero(env, nx, ny, viscous, wave, compressible=False):
     xp = env.xp
     sh, sf = half_full_surfaces(nx, ny, viscous, wave)
-    gh = gsx.GroupSX(env, gsx.aero_model([sh]), key="H")
-    gf = gsx.GroupSX(env, gsx.aero_model([sf]), key="F")
+    gh = gsx.GroupSX(env, gsx.aero_model([sh], compressible=compressible), key="H")
+    gf = gsx.GroupSX(env, gsx.aero_model([sf], compressible=compressible), key="F")
     if env.sym:
         env.use_helpers("eval_mtx")
     mh = env.var("mesh", (nx, ny, 3))
@@ -408,3 +409,48 @@ def struct(env, ny, relief):
     env.eq("C04", "von Mises stresses on the modelled half agree", gf.get(vf, "vonmises")[:ny - 1], gh.get(vh, "vonmises"))
     env.eq("C04", "structural mass agrees (the half model accounts for both halves)", gf.get(vf, "structural_mass"), gh.get(vh, "structural_mass"))
     env.eq("C04", "structural cg agrees", gf.get(vf, "cg_location"), gh.get(vh, "cg_location"))
+
+
+@job("c04.fuel_pointmass", ("C04",), cfgs=[dict(ny=2), dict(ny=3)],
+     ranges=list(RG) + [(r"fuel_vols|fuel_mass|fuelburn", 0.5, 2.0), (r"load_factor", 0.8, 1.5), (r"point_masses", 10.0, 50.0),
+                        (r"nodes\[\d+\]\[1\]", -3.0, -0.3), (r"point_mass_locations\[0\]\[1\]", -2.0, -0.5)], cost=5)
+def fuel_pointmass(env, ny):
+    """fuel loads, fuel-volume margin and point-mass loads of the half model vs the full model of the same mirror-symmetric
+    wing (nodes and per-element data mirror-extended; the full model carries every point mass and its mirror image)"""
+    xp = env.xp
+    sh = surface(name="wing", nx=2, ny=ny, symmetry=True, side="left", model="wingbox", distributed_fuel_weight=True, n_point_masses=1)
+    sf = surface(name="wing", nx=2, ny=2 * ny - 1, symmetry=False, model="wingbox", distributed_fuel_weight=True, n_point_masses=2)
+    Sm = np.array([1, -1, 1])
+    nodes_h = env.var("nodes", (ny, 3))
+    nodes_h = np.array(nodes_h, dtype=object if env.sym else float)
+    nodes_h[-1, 1] = 0 * nodes_h[-1, 1]                     # the root node lies on the symmetry plane
+    nodes_f = np.concatenate([nodes_h, (nodes_h[:-1] * Sm)[::-1]], axis=0)
+    vols_h = env.var("fuel_vols", (ny - 1,))
+    vols_f = np.concatenate([vols_h, vols_h[::-1]])
+    n = env.var("load_factor", ())
+    fm = env.var("fuel_mass", ())
+    # fuel loads
+    fh = env.comp("flH", lambda: cls("structures.fuel_loads.FuelLoads")(surface=sh))
+    ff = env.comp("flF", lambda: cls("structures.fuel_loads.FuelLoads")(surface=sf))
+    lh = fh.compute(dict(nodes=nodes_h, fuel_vols=vols_h, fuel_mass=fm, load_factor=n))["fuel_weight_loads"]
+    lf = ff.compute(dict(nodes=nodes_f, fuel_vols=vols_f, fuel_mass=fm, load_factor=n))["fuel_weight_loads"]
+    env.eq("C04", "fuel loads on the free nodes of the modelled half equal those of the full model", lh[:-1], lf[:ny - 1])
+    env.eq("C04", "fuel force at the root node of the half model is the modelled half's share of the full model's centre-node force",
+           2 * lh[-1, :3], lf[ny - 1, :3])
+    # fuel-volume margin
+    fb = env.var("fuelburn", ())
+    vh = env.comp("fvH", lambda: cls("structures.wingbox_fuel_vol_delta.WingboxFuelVolDelta")(surface=sh))
+    vf = env.comp("fvF", lambda: cls("structures.wingbox_fuel_vol_delta.WingboxFuelVolDelta")(surface=sf))
+    dh = np.asarray(vh.compute(dict(fuel_vols=vols_h, fuelburn=fb))["fuel_vol_delta"]).reshape(-1)[0]
+    df = np.asarray(vf.compute(dict(fuel_vols=vols_f, fuelburn=fb))["fuel_vol_delta"]).reshape(-1)[0]
+    env.eq("C04", "fuel-volume margin reported by the half model equals that of the full model (accounts for both halves)", dh, df)
+    # point masses
+    loc = env.var("point_mass_locations", (1, 3))
+    m = env.var("point_masses", (1,))
+    ph = env.comp("pmH", lambda: cls("structures.compute_point_mass_loads.ComputePointMassLoads")(surface=sh))
+    pf = env.comp("pmF", lambda: cls("structures.compute_point_mass_loads.ComputePointMassLoads")(surface=sf))
+    oh = ph.compute(dict(nodes=nodes_h, point_mass_locations=loc, point_masses=m, load_factor=n))["loads_from_point_masses"]
+    of = pf.compute(dict(nodes=nodes_f, point_mass_locations=np.concatenate([loc, loc * Sm], axis=0), point_masses=np.concatenate([m, m]),
+                         load_factor=n))["loads_from_point_masses"]
+    env.eq("C04", "point-mass loads on the free nodes of the modelled half equal those of the full model carrying the mass and its mirror image",
+           oh[:-1], of[:ny - 1])
